@@ -273,7 +273,7 @@ var C10 = &sim.Scenario{
 		if th {
 			return 3000000
 		}
-		return 20000
+		return 60000
 	},
 	RunFn: runC10,
 }
